@@ -108,7 +108,6 @@ type sqlLexer struct {
 	src     string
 	start   int
 	pos     int
-	nested  int // multiline comment nesting level.
 	stateFn stateFn
 	parts   []Part
 }
@@ -145,16 +144,25 @@ func rawState(l *sqlLexer) stateFn {
 				return placeholderState
 			}
 		case '-':
+			// `--` starts a comment only in front of white space or the end (1--$1 is 1 - -$1)
 			nextRune, width := utf8.DecodeRuneInString(l.src[l.pos:])
 			if nextRune == '-' {
-				l.pos += width
-				return oneLineCommentState
+				after, afterWidth := utf8.DecodeRuneInString(l.src[l.pos+width:])
+				if afterWidth == 0 || after == ' ' || after == '\n' || after == '\t' || after == '\r' {
+					l.pos += width
+					return oneLineCommentState
+				}
 			}
 		case '/':
 			nextRune, width := utf8.DecodeRuneInString(l.src[l.pos:])
 			if nextRune == '*' {
 				l.pos += width
 				return multilineCommentState
+			}
+			// the parser also takes `//` for a one-line comment
+			if nextRune == '/' {
+				l.pos += width
+				return oneLineCommentState
 			}
 		case utf8.RuneError:
 			if width != replacementcharacterwidth {
@@ -304,10 +312,8 @@ func oneLineCommentState(l *sqlLexer) stateFn {
 		l.pos += width
 
 		switch r {
-		case '\\':
-			_, width = utf8.DecodeRuneInString(l.src[l.pos:])
-			l.pos += width
-		case '\n', '\r':
+		case '\n':
+			// the parser ends a one-line comment at the line feed only and knows no escapes in it
 			return rawState
 		case utf8.RuneError:
 			if width != replacementcharacterwidth {
@@ -327,23 +333,15 @@ func multilineCommentState(l *sqlLexer) stateFn {
 		l.pos += width
 
 		switch r {
-		case '/':
-			nextRune, width := utf8.DecodeRuneInString(l.src[l.pos:])
-			if nextRune == '*' {
-				l.pos += width
-				l.nested++
-			}
 		case '*':
+			// the parser does not nest block comments: the first `*/` ends it
 			nextRune, width := utf8.DecodeRuneInString(l.src[l.pos:])
 			if nextRune != '/' {
 				continue
 			}
 
 			l.pos += width
-			if l.nested == 0 {
-				return rawState
-			}
-			l.nested--
+			return rawState
 
 		case utf8.RuneError:
 			if width != replacementcharacterwidth {
